@@ -935,22 +935,31 @@ fn flood_packet(r: &mut Rng, kind: u64, i: u64, a_bit: u64, out: &mut Vec<u8>) {
                 Frame::NewToken { token: r.bytes(40) }.encode(out);
             }
         }
-        _ => {
+        9 => {
             for _ in 0..20 {
                 Frame::Crypto { off: 5000 + r.below(5000), data: vec![1] }.encode(out);
                 Frame::ImmediateAck.encode(out);
             }
         }
+        _ => {
+            // (ack-withhold: the network loses everything the victim sends to this peer)
+            Frame::Ping.encode(out);
+            Frame::ImmediateAck.encode(out);
+        }
     }
 }
 
-const FLOOD_KINDS: &[&str] = &["cid-churn", "path-challenge", "stream-gaps", "credit-frames", "stream-cycling", "datagrams", "ack-ranges", "reset-stop", "new-token", "crypto-gaps"];
+const FLOOD_KINDS: &[&str] = &["cid-churn", "path-challenge", "stream-gaps", "credit-frames", "stream-cycling", "datagrams", "ack-ranges", "reset-stop", "new-token", "crypto-gaps", "ack-withhold"];
 
 fn flood_case(seed: u64, trace: bool, packets: u64) -> CaseOut {
     let mut r = Rng::new(seed ^ 0xC03C);
     let mut out = CaseOut::default();
     let mut vc = victim_cfg(&mut r);
-    let kind = r.below(FLOOD_KINDS.len() as u64);
+    let mut kind = r.below(FLOOD_KINDS.len() as u64);
+    if let Some(k) = std::env::var("QV_FLOOD_KIND").ok().and_then(|v| v.parse().ok()) {
+        kind = k; // debugging aid
+    }
+    let packets = std::env::var("QV_FLOOD_PACKETS").ok().and_then(|v| v.parse().ok()).unwrap_or(packets);
     if kind == 8 {
         vc.is_server = false; // NEW_TOKEN is only legal towards a client
     }
@@ -975,6 +984,10 @@ fn flood_case(seed: u64, trace: bool, packets: u64) -> CaseOut {
         return out;
     }
     let a_bit = if vc.is_server { 0 } else { 1 };
+    if kind == 10 {
+        let a = s.w.eps[s.attacker.0].addr;
+        s.w.netcfg.blackhole_dst.push(a);
+    }
     // let the bystander finish first so that its buffers do not blur the measurement
     let mut tmp = vec![];
     s.finish_bystander(&mut tmp);
@@ -1062,6 +1075,9 @@ fn flood_case(seed: u64, trace: bool, packets: u64) -> CaseOut {
     out.nontrivial = out.cnt.get("c03.flood_packets") > 0;
     out.fp = fingerprint(&[&cfg], &[seed]);
     out.sample = Some(json!({ "config": cfg, "retained_growth_bytes": live1 - live0, "lost": lost }));
+    if std::env::var("QV_FLOOD_KIND").is_ok() {
+        eprintln!("FLOODDBG {cfg} packets={packets} growth={} sent_packets={:?}", live1 - live0, p1.as_ref().map(|p| p.sent_packets));
+    }
     out.trace = s.w.trace.take();
     out
 }
